@@ -169,6 +169,12 @@ func VerifH_C11_Cycles() {
 			return n[j]
 		}
 	}
+	// where the uses statements of a grouping sit: 0 directly in its body, 1 one level
+	// down inside a container, 2 inside a grouping defined in its body that nothing uses
+	nest := 0
+	if kind == 1 {
+		nest = vrt.Choice("uses-nested-in", 3)
+	}
 	texts := map[string]string{}
 	switch kind {
 	case 0:
@@ -199,13 +205,23 @@ func VerifH_C11_Cycles() {
 		for i := 0; i < 3; i++ {
 			switch kind {
 			case 1:
+				// the uses statements of grouping i sit directly in its body, or one level
+				// down inside a container (expanded all the same when the grouping is used)
 				t += "grouping " + n[i] + " { leaf l" + n[i] + " { type string; } "
+				open, shut := "", ""
+				switch nest {
+				case 1:
+					open, shut = "container box"+n[i]+" { ", "} "
+				case 2:
+					open, shut = "grouping in"+n[i]+" { ", "} "
+				}
+				t += open
 				for j := 0; j < 3; j++ {
 					if e[i][j] {
 						t += "uses " + ref(i, j) + "; "
 					}
 				}
-				t += "} "
+				t += shut + "} "
 			case 2:
 				base := "string"
 				for j := 0; j < 3; j++ {
@@ -277,6 +293,12 @@ func VerifH_C11_Cycles() {
 		}
 	}
 	if cyc {
+		if nest == 2 {
+			// a chain that closes only through a grouping nothing uses: termination
+			// and no panic are asserted, the verdict is left unspecified
+			vrt.Reach("c11.cycles.cycle-through-unused-nested-grouping")
+			return
+		}
 		vrt.Assert(err != nil, "c11.cycles.cycle-is-an-error")
 		return
 	}
